@@ -780,7 +780,16 @@ def install_re(reg):
     for name in ("_RE_MULTI_SPACE", "_RE_MULTI_NEWLINE"):
         reg.module_consts[(RTF, name)] = VExt("RePattern", z3.Const(f"re:{name}", ext_sort("RePattern")))
     pat = fun("re_pattern_text", ext_sort("RePattern"), S)
-    reg.method_models[("RePattern", "sub")] = lambda ex, st, o, a, k, n: [(st, VStr(RESUB(pat(o.t), a[0].t, a[1].t)))]
+    prev = reg.method_models.get(("RePattern", "sub"))
+    mine = {f"re:{name}" for name in ("_RE_MULTI_SPACE", "_RE_MULTI_NEWLINE")}
+
+    def m_sub(ex, st, o, a, k, n):
+        # the RTF page patterns are opaque here (PY-RE: total, uninterpreted); every other compiled pattern keeps the model
+        # another pack registered for it
+        if prev is not None and str(o.t) not in mine:
+            return prev(ex, st, o, a, k, n)
+        return [(st, VStr(RESUB(pat(o.t), a[0].t, a[1].t)))]
+    reg.method_models[("RePattern", "sub")] = m_sub
 
 
 # --------------------------------------------------- construction site: EPUB spine --
@@ -1127,12 +1136,13 @@ class C03Executor(ET.ETreeMixin, X.UnitsExecutor):
 
 
 MBOX = "sharepoint2text/parsing/extractors/mail/mbox_email_extractor.py"
+EML_MOD = "sharepoint2text/parsing/extractors/mail/eml_email_extractor.py"
 
 
 def EXECUTOR(module, reg, uni, **kw):
     """Executor per module under verification: the mailbox splitter is verified with C16's executor (bytes of symbolic
     length, re.finditer model) under C16's contract, which C03 shares (message boundaries are part of both properties)."""
-    if module.rel == MBOX:
+    if module.rel in (MBOX, EML_MOD):
         return _mail_executor()(module, reg, uni, **kw)
     return C03Executor(module, reg, uni, **kw)
 
@@ -1283,12 +1293,25 @@ def contracts(reg):
     out.append(parse_ppt_contract())
     out.append(distribute_images_contract())
     out.extend(assumed_ppt_parsers())
-    install_re(reg)
     out.append(flush_page_contract())
     ET.install(reg)
     out.append(parse_spine_contract())
+    # e-mail glue shared with C16 (message boundaries and the body text that becomes the unit are part of both properties): the
+    # mailbox splitter and the .eml body assembly are verified here under C16's contracts (with C16's
+    # executor, see EXECUTOR); C16's remaining contracts are only registered, so that calls inside these functions use them
     from contracts import C16
-    out.append(C16.split_contract())      # one message per non-empty slice between separator lines, in order
+    shared = ("::_split_mbox_messages", "::_read_eml_format")      # (get_body_content's first-part rule is C16's claim, not C03's: see the
+    #                                                                 recorded finding C03-mbox-later-inline-parts-dropped)
+    for c16c in C16.contracts(reg):
+        if c16c.target.endswith(shared):
+            if c16c.target.endswith("::_read_eml_format"):
+                # C03 needs the clauses about the body text that becomes the unit; headers / addresses / attachments stay C16's
+                import dataclasses
+                c16c = dataclasses.replace(c16c, ensures=[(l, f) for (l, f) in c16c.ensures if l.startswith("body_")], loops={})     # (attachment loop: cut without invariant)
+            out.append(c16c)
+        elif reg.get(c16c.target) is None:
+            reg.add(c16c)
+    install_re(reg)
     from pyvc import solve as _solve
     if _untrusted not in _solve.SAT_UNTRUSTED:
         _solve.SAT_UNTRUSTED.append(_untrusted)
@@ -1378,7 +1401,8 @@ from contracts import c03_flow  # noqa: E402
 
 from contracts import c03_sections  # noqa: E402
 
-EXTRA = [c03_flow.construction_sites, c03_flow.heading_iterators, c03_sections.odt_step, c03_sections.native_sections]
+EXTRA = [c03_flow.construction_sites, c03_flow.heading_iterators, c03_sections.odt_step, c03_sections.native_sections,
+         c03_sections.native_documents, c03_sections.slide_text_fragments]
 known_findings = c03_sections.known_findings
 REPLAY_UNKNOWN = True    # an obligation the solver leaves unknown is searched natively (replay/C03.py) before it is reported undecided
 
@@ -1397,8 +1421,9 @@ NOT_CLAIMED = ["coverage of the body by the heading-section units: discharged on
                "section scope, and docx documents with body text before the first heading or with a heading without text are recorded "
                "findings (C03-docx-body-before-first-heading, C03-docx-heading-without-text) excluded from that scope",
                "get_full_text of ppt/xls/rtf/doc/docx/odt (the statement lists eleven formats; these six are documented otherwise)",
-               "end-to-end extraction (that page.text IS the text of PDF page k etc.) is C02's; here unit k == element k of the content object "
-               "and element k == source item k at the construction sites"]
+               "that the text of element k is complete is discharged only for odp / pptx slide text (fragment contracts shared with C02) and the "
+               ".eml body (contract shared with C16); for the other formats it is covered by the BOUNDED generated-document scope only "
+               "(C02 owns the unbounded claim).  Recorded finding: mbox keeps only the first inline text part (C03-mbox-later-inline-parts-dropped)"]
 ASSUMPTIONS = ["DT-TYPED: fields of the content dataclasses hold values of their declared types (lists are finite)",
                "class invariant used for the position clause of stored-number types (ppt/pptx/odp: slide_number == position; epub: "
                "chapter numbers strictly increasing from >= 1) is established at the construction sites (part d) and assumed for "
@@ -1407,6 +1432,10 @@ ASSUMPTIONS = ["DT-TYPED: fields of the content dataclasses hold values of their
                "PY-RE: compiled-pattern .sub is total and uninterpreted",
                "PY-GEN: generator = procedure appending to the ghost sequence of unit observations",
                "PY-STR", "PY-EXC / EXC-ANY"]
-BOUNDED = ["C03/replay::heading-sections[DocContent|DocxContent|OdtContent]/bounded#body-text-in-the-unit-of-its-section.BOUNDED: every document of "
+BOUNDED = ["C03/replay::generated-documents[documents:<format>]/bounded#units-mirror-the-generated-document.BOUNDED (pdf, pptx, odp, epub, rtf, xlsx, "
+           "ods, eml, mbox, ppt, txt, html): small generated documents read with the real extractor -- unit per element at its source "
+           "position, every generated text token exactly once and in the unit of its element, full text == joined unit texts; the bounds are "
+           "listed per obligation in the evidence (never counted as discharged)",
+           "C03/replay::heading-sections[DocContent|DocxContent|OdtContent]/bounded#body-text-in-the-unit-of-its-section.BOUNDED: every document of "
            "<= 5 paragraphs over {h1, h2 (fixed, hence repeated, texts), heading without text, body paragraph with distinct / repeated text, "
            "empty paragraph} built natively and compared with the section spec of replay/C03.py (never counted as discharged)"]
